@@ -1,7 +1,7 @@
 /-
   C08 helper lemmas, part 5e: every call preserves the invariant; whole histories.
 -/
-import ASV.Proofs.LookupInvOps
+import ASV.Proofs.LookupInvAnn
 namespace ASV.Lookup
 open ASV
 
@@ -82,6 +82,8 @@ theorem Inv.step {L : Live} {ever : List AreaT} {r r' : Rec} (h : Inv L ever r) 
     simp only [Lookup.step, pure, Except.pure] at hstep
     injection hstep with hstep; subst hstep
     exact h.peek (by constructor <;> rfl) ⟨h.cache.cds, h.cache.slot, h.cache.tuple⟩
+  | setCores gid cs =>
+    simpa [opAreas] using h.setCores gid cs hstep
   | indexOf aid gid =>
     obtain ⟨i, _, e⟩ := indexOf_ok hstep
     subst e
